@@ -599,6 +599,16 @@ pub fn dispatch(op: &str, args: &[&str]) -> Option<Res> {
             // the generator reads LOG2_TAB from base/src/math/log.rs and passes it packed; the model answers
             // with the constant its table theorem is about (the table is private and cfg(not(std)))
             "tab.log2" => Ok(arg(args, 0)?.to_string()),
+            // answers of the harness built WITHOUT the `std` feature (obtained by the case generator), echoed
+            // so that the differ compares them with the model of the no_std estimator; `~` stands for a space
+            "ns" => {
+                let p = arg(args, 0)?.replace('~', " ");
+                if let Some(v) = p.strip_prefix("ok ") {
+                    Ok(v.to_string())
+                } else {
+                    Err(p)
+                }
+            }
             "p.gcdrow" => {
                 let ty = arg(args, 0)?;
                 prim_width(ty)?;
